@@ -100,13 +100,29 @@ int htp_parse_status(bstr *status) {
  * @param[in] auth_header
  */
 int htp_parse_authorization_digest(htp_connp_t *connp, htp_header_t *auth_header) {    
-    // Extract the username
-    int i = bstr_index_of_c(auth_header->value, "username=");
-    if (i == -1) return HTP_DECLINED;
-
+    // Extract the username. The parameter is looked for outside quoted
+    // strings: the value of another parameter (realm="username=", uri="/?username=x")
+    // is not a parameter name.
     unsigned char *data = bstr_ptr(auth_header->value);
     size_t len = bstr_len(auth_header->value);
-    size_t pos = i + 9;
+    size_t pos = 0;
+    int in_quotes = 0, found = 0;
+
+    while (pos < len) {
+        if (in_quotes) {
+            if ((data[pos] == '\\') && (pos + 1 < len)) pos++;
+            else if (data[pos] == '"') in_quotes = 0;
+        } else if (data[pos] == '"') {
+            in_quotes = 1;
+        } else if ((len - pos >= 9) && (memcmp(data + pos, "username=", 9) == 0)) {
+            found = 1;
+            break;
+        }
+        pos++;
+    }
+
+    if (!found) return HTP_DECLINED;
+    pos += 9;
 
     // Ignore whitespace
     while ((pos < len) && (isspace((int) data[pos]))) pos++;   
